@@ -88,6 +88,10 @@ func rqNewlines(w *World) {
 				if bad == nil {
 					w.ok(key, as.Pos(), fmt.Sprintf("if %s is a newline, every feasible path passes maybeNewLine(%s) or un-reads it before the next read or return (%d path steps explored)", v, v, ex.steps))
 				} else {
+					if strings.HasPrefix(bad.end, "twice:") {
+						w.violation(key, as.Pos(), fmt.Sprintf("a newline returned by this readRune is registered twice: path %s reaches %s; the rune is handed to maybeNewLine again when it is re-read, FileInfo.AddLine receives the same offset twice (it panics) or the line table gains a line that does not exist", strings.Join(bad.trace, " → "), strings.TrimPrefix(bad.end, "twice:")), bad.trace...)
+						continue
+					}
 					w.violation(key, as.Pos(), fmt.Sprintf("a newline returned by this readRune can be consumed without being registered: path %s reaches %s with neither l.maybeNewLine(%s) nor unreadRune(%s); the line table misses the line break and all later positions are reported on an earlier line", strings.Join(bad.trace, " → "), bad.end, v, sz), bad.trace...)
 				}
 			}
@@ -163,6 +167,12 @@ func (ex *nlExplorer) eval(e ast.Expr) tri {
 				}
 			}
 		}
+		// a small predicate of the module on the rune itself (isHexDigit(c2), …) is inlined
+		if len(x.Args) == 1 && render(x.Args[0]) == ex.v {
+			if _, isIdent := ast.Unparen(x.Args[0]).(*ast.Ident); isIdent {
+				return evalWithStrings(ex.info, x, ex.v, '\n')
+			}
+		}
 	}
 	return triUnknown
 }
@@ -198,6 +208,14 @@ func (ex *nlExplorer) errBranch(cond ast.Expr, truth bool) bool {
 }
 
 func (ex *nlExplorer) explore(b *cfg.Block, idx int, onPath map[*cfg.Block]int, trace []string) *nlBad {
+	return ex.exploreReg(b, idx, onPath, trace, false)
+}
+
+// exploreReg: reg says that maybeNewLine(v) has already been passed on this path. From then on the
+// exploration continues until the rune's variables are overwritten by the next read (or the
+// function returns): pushing the rune back, or registering it again, makes the reader hand the
+// same line break to maybeNewLine twice — FileInfo.AddLine then sees the same offset twice.
+func (ex *nlExplorer) exploreReg(b *cfg.Block, idx int, onPath map[*cfg.Block]int, trace []string, reg bool) *nlBad {
 	ex.steps++
 	if ex.steps > 200000 {
 		return &nlBad{trace: trace, end: "exploration bound"}
@@ -212,39 +230,54 @@ func (ex *nlExplorer) explore(b *cfg.Block, idx int, onPath map[*cfg.Block]int, 
 		discharged, violated := false, ""
 		inspectPost(n, func(x ast.Node) {
 			c, ok := x.(*ast.CallExpr)
-			if !ok {
+			if !ok || discharged || violated != "" {
 				return
 			}
 			f := callee(ex.info, c)
 			switch {
 			case f == ex.mnl && len(c.Args) == 1 && render(c.Args[0]) == ex.v:
-				discharged = true
+				if reg {
+					violated = "twice:a second maybeNewLine(" + ex.v + ") at " + ex.w.pos(c.Pos())
+				}
+				reg = true
 			case f == ex.unread && len(c.Args) == 1 && render(c.Args[0]) == ex.sz && ex.sz != "_":
+				if reg {
+					violated = "twice:unreadRune(" + ex.sz + ") at " + ex.w.pos(c.Pos()) + " after the rune was registered"
+				}
 				discharged = true
 			case f == ex.readRune:
-				if !discharged {
+				if !reg {
 					violated = "the next readRune at " + ex.w.pos(c.Pos())
 				}
 			}
 		})
-		if discharged {
-			return nil
-		}
 		if violated != "" {
 			return &nlBad{trace: trace, end: violated}
 		}
+		if discharged {
+			return nil
+		}
 		if as, ok := n.(*ast.AssignStmt); ok {
 			for _, l := range as.Lhs {
-				if render(l) == ex.v {
+				if render(l) == ex.v || (render(l) == ex.sz && ex.sz != "_") {
+					if reg {
+						return nil // the variables now belong to the next read
+					}
 					return &nlBad{trace: trace, end: "a re-assignment of " + ex.v + " at " + ex.w.pos(as.Pos())}
 				}
 			}
 		}
 		if r, ok := n.(*ast.ReturnStmt); ok {
+			if reg {
+				return nil
+			}
 			return &nlBad{trace: trace, end: "the return at " + ex.w.pos(r.Pos())}
 		}
 	}
 	if len(b.Succs) == 0 {
+		if reg {
+			return nil
+		}
 		return &nlBad{trace: trace, end: "the end of the function"}
 	}
 	// conditional?
@@ -285,7 +318,7 @@ func (ex *nlExplorer) explore(b *cfg.Block, idx int, onPath map[*cfg.Block]int, 
 					continue // the read failed: no rune was consumed
 				}
 				step := fmt.Sprintf("%s is %v (%s)", types.ExprString(cond), truth, ex.w.pos(cond.Pos()))
-				if bad := ex.explore(s, 0, onPath, append(append([]string{}, trace...), step)); bad != nil {
+				if bad := ex.exploreReg(s, 0, onPath, append(append([]string{}, trace...), step), reg); bad != nil {
 					return bad
 				}
 			}
@@ -293,7 +326,7 @@ func (ex *nlExplorer) explore(b *cfg.Block, idx int, onPath map[*cfg.Block]int, 
 		}
 	}
 	for _, s := range b.Succs {
-		if bad := ex.explore(s, 0, onPath, trace); bad != nil {
+		if bad := ex.exploreReg(s, 0, onPath, trace, reg); bad != nil {
 			return bad
 		}
 	}
